@@ -6,6 +6,7 @@ From EXV Require Import Exec.EntryC19.
 From EXV Require Import Exec.EntryC07.
 From EXV Require Import Exec.EntryC06.
 From EXV Require Import Exec.EntryC18.
+From EXV Require Import Exec.EntryC16.
 From EXV Require Import Utils.Rollout Gen.ETDRK Gen.Guards Spectral.Symbols Gen.GenericUtils Steppers.Linear Layout.Freq Nonlin.Conv Nonlin.Terms Spectral.Operators Nonlin.Injection Spectral.Spectrum Layout.Resample.
 Import ListNotations.
 Local Open Scope Z_scope.
@@ -316,6 +317,7 @@ Definition run (id : Z) (a : list Q) : list Q :=
   | 7 => run_c07 sub a
   | 6 => run_c06 sub a
   | 18 => run_c18 sub a
+  | 16 => run_c16 sub a
   | 1 => match sub with 1 => run_sym a | 2 => run_wave a | _ => [] end
   | 13 => match sub with 1 => run_conv a | _ => [] end
   | _ => []
